@@ -432,6 +432,13 @@ func checkCodec(p P) error {
 	if err != nil || !bytes.Equal(b, b2) {
 		return fmt.Errorf("%s: re-marshal differs (err %v)", p.Kind, err)
 	}
+	// the payload belongs to the application: once it has overwritten both results (spare capacity included) the packet marshals as before
+	keep := append([]byte(nil), b...)
+	ev.Trash(b2)
+	ev.Trash(b)
+	if again, err := pkt.MarshalBinary(); err != nil || !bytes.Equal(again, keep) {
+		return fmt.Errorf("%s: after the application overwrote the payloads returned earlier the packet marshals to %x.. (err %v), before to %x..", p.Kind, head(again), err, head(keep))
+	}
 	if p.Edit != 0 {
 		return checkEdited(p)
 	}
